@@ -38,7 +38,7 @@ Definition model_ok (c : case) : bool :=
 Definition spec_ok (c : case) : bool :=
   match c with CScen _ _ _ _ _ a => spec_after a | CAfter a => spec_after a end.
 """
-BASE = {"a": 1, "b": 2, "c": 3, "1": 2, "[2]": 3}
+BASE = {"a": 1, "b": 2, "c": 3, "d": 4, "e": 5, "1": 12, "INNER": 8, "PAIR": 7}
 
 
 def zval(s):
@@ -152,7 +152,7 @@ def par_mismatches(ctx, name, header, cases, fns, shard, workers=6):
 
     def one(ic):
         i, chunk = ic
-        return i, coq_mismatches(ctx, "%s_%d" % (name, i), header, chunk, fns, shard=shard)
+        return i, coq_mismatches(ctx, "%s_%d" % (name, i), header, chunk, fns, shard=shard, timeout=200 if ctx.quick() else 850)
     with cf.ThreadPoolExecutor(max_workers=workers) as ex:
         for i, res in ex.map(one, chunks):
             for k in range(len(fns)):
@@ -171,7 +171,7 @@ def run(ctx):
     if ctx.quick():
         args = ["-rand", "60", "-cancel-every", "12"]
     else:
-        args = ["-rand", "600", "-cancel-every", "1"]
+        args = ["-rand", "300", "-cancel-every", "1"]
     lines = ctx.jsonl([hx, "-seed", str(ctx.seed)] + args, timeout=840)
     dist, tags = {}, {}
     terms, refs = [], []
@@ -193,7 +193,7 @@ def run(ctx):
                          "source": l.get("src"), "observed": l.get("res"), "how": "run main(c0, c1) with starlark.Call on host-created collections [a,b,c]; see harness/cmd/c06"})
         if k == "scenario":
             r = l["res"]
-            init = "[" + "; ".join("(%s, [1; 2; 3])" % cbool(f) for f in l["frozen"]) + "]"
+            init = "[" + "; ".join("(%s, %s)" % (cbool(f), zlist([zval(x) for x in c])) for f, c in zip(l["frozen"], l["init"])) + "]"
             out = {"ok": "ORet", "err": "OErr", "panic": "OPanic"}.get(r["outcome"], "OErr")
             cs = "[" + "; ".join(zlist([zval(x) for x in (c or [])]) for c in r["content"]) + "]"
             terms.append("(CScen %s %s %s %s %s %s)" % (init, l["coq"], out, zlist(r["ic"]), cs, after_term(l)))
